@@ -19,7 +19,10 @@ def match(findings, prop, v):
     for f in findings:
         if f.get('status') != 'open' or f.get('property') != prop:
             continue
-        if f.get('oracle') != v['oracle']:
+        oracle = str(v['oracle'])
+        if oracle.endswith('.after_edit'):
+            oracle = oracle[:-len('.after_edit')]      # the same oracle evaluated on the second run of a run/edit/reset/rerun history
+        if f.get('oracle') != oracle:
             continue
         if re.fullmatch(f.get('sig', '.*'), str(v['sig'])) is None:
             continue
